@@ -31,7 +31,7 @@ impl SwapTickSequence {
             && (a_to_b ==> forall|t: int| p.1 < t <= tick_index ==> !#[trigger] seq_init(*self, t))
             && (!a_to_b ==> forall|t: int| tick_index < t < p.1 ==> !#[trigger] seq_init(*self, t))
             // initialized ticks sit on the spacing grid; the two protocol bounds are the only other answers
-            && (p.1 as int % tick_spacing as int == 0 || p.1 == -443636 || p.1 == 443636),
+            && (p.1 as int % tick_spacing as int == 0 || (a_to_b && p.1 == -443636) || (!a_to_b && p.1 == 443636)),
     { unimplemented!() }
     #[verifier::external_body]
     pub fn get_tick(&self, array_index: usize, tick_index: i32, tick_spacing: u16) -> (r: Result<Tick>)
@@ -55,7 +55,7 @@ impl MapOrElseTick for Result<Tick> {
     { match self { Ok(tick) => (Some(tick), tick.initialized), Err(_e) => (None, false) } }
 }
 
-//@ fn manager/swap_manager.rs get_next_sqrt_prices -> r
+//@ fn manager/swap_manager.rs get_next_sqrt_prices -> r pub
     requires tick_ok(next_tick_index as int), price_ok(sqrt_price_limit as int),
     ensures r.0 as int == price_at(next_tick_index as int), price_ok(r.0 as int), price_ok(r.1 as int),
         a_to_b ==> r.1 as int == max_i(sqrt_price_limit as int, r.0 as int),
